@@ -90,9 +90,11 @@ def run(ck):
                     max_leaf_size=int(rng.integers(15, 40)), n_trees=[1, 2][i % 2], verbose=False, tuning_metric=metric, split_method=method,
                     classification_mode=['zero_one', 'prevalence'][i % 2], refill_size=15, temp_tuning_space=[0.0, 0.05, 0.5, 3.0],
                     random_state=100 + i, n_tree_iters=tree_iters)
+        if i % 6 == 4:
+            ctor['rfm_params'] = None          # the library's default leaf model (rfm_params=None aliases default_rfm_params)
         D = data(task, int(rng.integers(90, 200)), d)
         Q = torch.tensor(xr.make_X('random', 25, d, rng))
-        desc = dict(i=i, task=task, metric=metric, method=method, tree_iters=tree_iters, n=int(D[0].shape[0]), L=ctor['max_leaf_size'], n_trees=ctor['n_trees'], seed=ck.seed)
+        desc = dict(i=i, task=task, metric=metric, method=method, tree_iters=tree_iters, default_params=(ctor['rfm_params'] is None), n=int(D[0].shape[0]), L=ctor['max_leaf_size'], n_trees=ctor['n_trees'], seed=ck.seed)
         # (1) same seed after different amounts of prior randomness
         outs = []
         for burn in (0, 17, 10_000):
